@@ -121,6 +121,16 @@ def basickey(value):
     return v.lower()
 
 
+def picky_nested(value):
+    """Like picky, but built on ZConfig itself: the refusal is ZConfig's own DataConversionError
+    (a ValueError like any other) that speaks of some other text at some other place."""
+    try:
+        return picky(value)
+    except ValueError as e:
+        import ZConfig
+        raise ZConfig.DataConversionError(e, "inner text", (4711, None, "file:///zcv/inner/elsewhere.conf"))
+
+
 def picky(value):
     """Section datatype that refuses a section holding the string REJECTME (a fault at the
     section-datatype stage that a text can switch on)."""
